@@ -15,11 +15,13 @@ METAS = {
     "glue_names": m("Names: _lead, trail_, dou__ble, mixedCase, Shout, a"),
     "glue_attrs": m("Attrs: doc/allow/cfg attributes, a cfg'd-out method between live ones, derive = [Clone, PartialEq]"),
     "glue_noserde": m("Plain: derive_serde = false, private trait, raw identifiers as argument names"),
+    "glue_rnames": m("Registry: method names r, read, rr_lookup, re_, x2 (names that begin like the raw-identifier prefix)"),
 }
+CTX_ARG = {"glue_ctx_arg": m("Relay: an RPC argument named `ctx` of type Context — only if the macro accepts the definition: implementor gets the request's context, the argument arrives as the argument")}
 STATIC = {
     "coverage": {
         "functions_encoded": [
-            "output of tarpc_plugins::service (plugins/src/lib.rs: trait_service, struct_server, impl_serve_for_server, enum_request + RequestName, enum_response, struct_client, From<Stub>, impl_client_rpc_methods) expanded by the real proc macro for 5 service definitions / 19 methods",
+            "output of tarpc_plugins::service (plugins/src/lib.rs: trait_service, struct_server, impl_serve_for_server, enum_request + RequestName, enum_response, struct_client, From<Stub>, impl_client_rpc_methods) expanded by the real proc macro for 6 service definitions / 24 methods",
             "tarpc::client::stub::Stub (harness Direct<S> stub), tarpc::server::Serve",
         ],
         "programs": 5,
@@ -52,6 +54,9 @@ def negative_cases(s):
         log("  negative case %-10s rejected=%s message=%s" % (feat, rc not in (0, None), needle in o))
     rc, o, _ = run(["cargo", "check", "--offline", "--lib"], cwd=cwd, env=env, timeout=900)
     out.append({"case": "positive family compiles natively", "rejected": rc != 0, "message_found": rc == 0})
+    rc, o, _ = run(["cargo", "check", "--offline", "--lib", "--features", "arg_ctx"], cwd=cwd, env=env, timeout=900)
+    out.append({"case": "arg_ctx (RPC argument named ctx)", "rejected": rc != 0, "message_found": True})
+    log("  argument named ctx: %s" % ("rejected at compile time" if rc != 0 else "ACCEPTED by the macro -> checking that it is compiled correctly"))
     return out
 
 
@@ -60,6 +65,11 @@ def main(tier):
     with Scratch(PID) as s:
         recs, viol, known, inc, wall = kprop.decide(PID, tier, s, CRATE, METAS, timeout_s=1500 if tier == "quick" else 3600)
         neg = negative_cases(s)
+        if not neg[3]["rejected"]:
+            # the macro accepts an argument named ctx: it must then be wired correctly
+            r2, v2, k2, i2, w2 = kprop.decide(PID, tier, s, CRATE + "-argctx", CTX_ARG, cwd=os.path.join(s.harness, CRATE), timeout_s=900,
+                                              kani_extra=["--features", "arg_ctx"], replay_kw={"cargo_extra": ["--features", "arg_ctx"]})
+            recs.update(r2); viol += v2; known += k2; inc += i2; wall += w2
         for n in neg[:2]:
             if not n["rejected"]:
                 viol.append({"harness": "compile:" + n["case"], "failed_checks": ["a method named like a generated item was accepted by the macro"],
